@@ -466,5 +466,5 @@ pub fn relay_strategy(upload: bool) -> proptest::strategy::BoxedStrategy<RelayCa
 
 pub fn run_relay_random(ctx: &Ctx, upload: bool) {
     let dirs = DirPool::new(ctx, "c04r");
-    explore_n(ctx, if upload { "wire-relay-upload" } else { "wire-relay-download" }, ctx.tier.pick(64, 4_000), shards(), 12, move || relay_strategy(upload), |c: &RelayCase, o| dirs.with(|d| judge_relay(d, c, o)));
+    explore_n(ctx, if upload { "wire-relay-upload" } else { "wire-relay-download" }, ctx.tier.pick(64, 1_500), shards(), 12, move || relay_strategy(upload), |c: &RelayCase, o| dirs.with(|d| judge_relay(d, c, o)));
 }
